@@ -39,6 +39,10 @@ def parity_stream(arr, content, lev):
         return files[0] or b"", problems
     out = []
     for s, sp in enumerate(par.splits):
+        if sp.size is None:
+            # size not recorded yet: the whole file counts
+            out.append(files[s] or b"" if s < len(files) else b"")
+            continue
         if sp.size % bs != 0:
             problems.append("level %d split %d: recorded size %d is not a multiple of the block size" % (lev, s, sp.size))
         data = files[s] if s < len(files) else None
